@@ -57,7 +57,12 @@ func runC02(c C02Case) (res c02result) {
 	}
 	c.Transport.apply(b)
 	defer b.Shutdown()
-	S, P := b.Dial("S"), b.Dial("P")
+	// the publisher's transport may hand the broker the last bytes together with the end of the stream
+	pEOF := false
+	for _, op := range c.Ops {
+		pEOF = pEOF || op.K == "lasteof"
+	}
+	S, P := b.Dial("S"), b.DialOpt("P", pEOF)
 	if _, err := S.Connect(wire.ConnectPacket("sub", true, 120)); err != nil {
 		return c02result{Fail: "subscriber connect: " + err.Error()}
 	}
@@ -180,6 +185,42 @@ func runC02(c C02Case) (res c02result) {
 			P.SendAsync(out)
 			settled(300 * time.Millisecond)
 			S.Unstall()
+		case "lasteof":
+			// The publisher's last packet and the end of its stream reach the broker
+			// together (the client ends its sending direction right behind the packet):
+			// the packet was received and is handed on like any other. What the
+			// publisher itself still gets is not judged. Then the client comes back.
+			var last *codec.Packet
+			if len(open) > 0 {
+				x := open[0]
+				open = open[1:]
+				completed[x.id] = true
+				last = &codec.Packet{Type: codec.PUBREL, PacketID: x.id}
+				if !x.sys {
+					expFwd = append(expFwd, want{x.topic, x.payload, 2})
+				}
+				cls["last-packet-with-end-of-stream:PUBREL"] = true
+			} else {
+				msgno++
+				pl := payload(msgno, op.Size)
+				topic := fmt.Sprintf("t/q1/%d", msgno)
+				last = &codec.Packet{Type: codec.PUBLISH, QoS: 1, PacketID: op.ID, Topic: []byte(topic), Payload: pl}
+				expFwd = append(expFwd, want{topic, pl, 1})
+				cls["last-packet-with-end-of-stream:PUBLISH"] = true
+			}
+			if err := P.Send(last); err != nil {
+				return c02result{Fail: fmt.Sprintf("%s: write failed: %v", where, err)}
+			}
+			P.HalfClose()
+			if !P.WaitTeardown(wire.DefaultWait) {
+				return c02result{Fail: fmt.Sprintf("%s: teardown of the publisher's connection after the end of its stream did not finish", where)}
+			}
+			P.Close()
+			P = b.DialOpt("P", pEOF)
+			ack, err := P.Connect(wire.ConnectPacket("pub", false, 120))
+			if err != nil || ack.ReturnCode != 0 || !ack.SessionPresent {
+				return c02result{Fail: fmt.Sprintf("%s: publisher reconnect: %v %v", where, ack, err)}
+			}
 		case "reconnect":
 			// the publisher's connection drops and the client comes back with CleanSession=0:
 			// exchanges that were open stay open
@@ -187,7 +228,7 @@ func runC02(c C02Case) (res c02result) {
 			if !P.WaitTeardown(wire.DefaultWait) {
 				return c02result{Fail: fmt.Sprintf("%s: teardown of the publisher's dropped connection did not finish", where)}
 			}
-			P = b.Dial("P")
+			P = b.DialOpt("P", pEOF)
 			ack, err := P.Connect(wire.ConnectPacket("pub", false, 120))
 			if err != nil || ack.ReturnCode != 0 {
 				return c02result{Fail: fmt.Sprintf("%s: publisher reconnect: %v %v", where, ack, err)}
@@ -296,7 +337,7 @@ func genC02(t *rapid.T) C02Case {
 		case k == 10:
 			c.Ops = append(c.Ops, C02Op{K: "filler", Volume: rapid.SampledFrom([]int{8000, 20000, 50000}).Draw(t, "vol")})
 		case k == 11 && rapid.Bool().Draw(t, "reconnect"):
-			c.Ops = append(c.Ops, C02Op{K: "reconnect"})
+			c.Ops = append(c.Ops, C02Op{K: rapid.SampledFrom([]string{"reconnect", "lasteof"}).Draw(t, "how"), ID: id, Size: size})
 		default:
 			c.Ops = append(c.Ops, C02Op{K: "ping"})
 		}
